@@ -518,15 +518,23 @@ theorem assign_updates_only_target {ms : MacroSem} {env : CEnv} {lhs : CExpr} {o
     refine ⟨rfl, rfl, rfl, rfl, rfl, rfl, ?_⟩
     intro q hq
     simp [hq]
+  | imm l s =>
+    simp only [destWrite, Except.ok.injEq] at hdw
+    subst hdw
+    obtain ⟨vv, _, rfl⟩ := ExecIL_setl_inv hx
+    exact ⟨rfl, rfl, rfl, rfl, rfl, trivial⟩
   | _ => simp [destWrite] at hdw
 
 /-- the same on the C side: `writeLhsC` changes only the target -/
 theorem assignC_updates_only_target {lhs : CExpr} {v : Val} {σ σ' : MState} (h : writeLhsC σ lhs v = .ok σ') :
-    σ'.mem = σ.mem ∧ σ'.cur = σ.cur ∧ σ'.imm = σ.imm ∧ σ'.pktAddr = σ.pktAddr ∧ σ'.stores = σ.stores ∧
+    σ'.mem = σ.mem ∧ σ'.cur = σ.cur ∧ σ'.pktAddr = σ.pktAddr ∧ σ'.stores = σ.stores ∧
     (match (generalizing := false) lhs with
-     | .var n _ => σ'.new = σ.new ∧ σ'.written = σ.written ∧ ∀ k, k ≠ n → lookupS k σ'.locals = lookupS k σ.locals
-     | .reg n k _ => σ'.locals = σ.locals ∧
+     | .var n _ => σ'.imm = σ.imm ∧ σ'.new = σ.new ∧ σ'.written = σ.written ∧
+         ∀ k, k ≠ n → lookupS k σ'.locals = lookupS k σ.locals
+     | .reg n k _ => σ'.imm = σ.imm ∧ σ'.locals = σ.locals ∧
          ∀ q, q ≠ opvarOf n k → σ'.new q = σ.new q ∧ σ'.written q = σ.written q
+     | .imm l _ => σ'.new = σ.new ∧ σ'.written = σ.written ∧ σ'.locals = σ.locals ∧
+         ∀ q, q ≠ l → σ'.imm q = σ.imm q        -- an assignable immediate (`riV = riV & ~3`)
      | _ => True) := by
   cases lhs with
   | var n t =>
@@ -542,6 +550,15 @@ theorem assignC_updates_only_target {lhs : CExpr} {v : Val} {σ σ' : MState} (h
       intro q hq
       simp [hq]
     | _ => simp [writeLhsC, writeRegC] at h
+  | imm l s =>
+    cases v with
+    | bv w x =>
+      simp only [writeLhsC, Except.ok.injEq] at h
+      subst h
+      refine ⟨rfl, rfl, rfl, rfl, rfl, rfl, rfl, ?_⟩
+      intro q hq
+      simp [hq]
+    | _ => simp [writeLhsC] at h
   | _ => simp [writeLhsC] at h
 
 /-! ## the side condition of chained assignment is necessary (model finding) -/
